@@ -609,6 +609,20 @@ def k_choice_no_name(f, rng):
     return Exp(r"On the 'choices' sheet, the 'name' value is invalid\. Choices must have a name", "row", choice=ch)
 
 
+@kind("choices-extra-column-with-language-suffix", 2)
+def k_choice_extra_suffix(f, rng):
+    """Only label and media columns take a ::language suffix; on any other choices column the grouped cell is a dict where the choice instance needs text."""
+    ln = pick(rng, sorted(f.choices))
+    if not ln:
+        return None
+    uses_double = any("::" in h for lst in f.choices.values() for c in lst for h in c) or any("::" in h for r, _ in f.walk() for h in r.cells)
+    hdr = pick(rng, ["pop::2020", "hint::fr", "note::English (en)", "code::a::b"] + ([] if uses_double else ["x:y", "geo:lat"]))
+    ch = pick(rng, f.choices[ln])
+    ch[hdr] = "v1"
+    base = hdr.split(":")[0]
+    return Exp(r"On the 'choices' sheet, the '%s' value is invalid" % re.escape(base), "none")
+
+
 @kind("choice-duplicate-name", 3)
 def k_choice_dup(f, rng):
     ln = pick(rng, sorted(f.choices))
